@@ -57,7 +57,7 @@ theorem settled_reach (hi : Inv net c s) (hw : s.workers = []) (hf : s.failed = 
     (hh : ∀ h ∈ hs, tracked s h) {x : Nat} (hx : Reach net hs x) : task s x = some .fetched := by
   induction hx with
   | head hm => exact settled_fetched hi hw hf (hh _ hm)
-  | link _ hnf hl ih => exact settled_fetched hi hw hf (hi.closure _ ih hnf _ hl)
+  | link _ hnf hl ih => exact settled_fetched hi hw hf (hi.closure _ (Or.inl ih) hnf _ hl)
 
 /-- at a quiescent state, a tracked hash has been fetched or waits in `failed` for the next `Load` -/
 theorem quiet_fetched (hi : Inv net c s) (hw : s.workers = []) {x : Nat} (hx : tracked s x) :
@@ -89,7 +89,7 @@ theorem quiet_reach (hi : Inv net c s) (hw : s.workers = []) {hs : List Nat}
     · exact Or.inr ⟨_, h, .head List.mem_cons_self⟩
   | link _ hnf hl ih =>
     rcases ih with ih | ⟨y, hy, hr⟩
-    · rcases quiet_fetched hi hw (hi.closure _ ih hnf _ hl) with h | h
+    · rcases quiet_fetched hi hw (hi.closure _ (Or.inl ih) hnf _ hl) with h | h
       · exact Or.inl h
       · exact Or.inr ⟨_, h, .head List.mem_cons_self⟩
     · exact Or.inr ⟨y, hy, .link hr hnf hl⟩
@@ -125,7 +125,7 @@ theorem load_facts (hin : StIn U s) (ctx : Nat) {hs : List Nat} (hhs : ∀ h ∈
     let s1 := step net s (.load ctx hs)
     StIn U s1 ∧ s1.cancelled = s.cancelled ∧ s1.failed = [] ∧ s1.pending = s.pending ∧
     (∀ h, tracked s h → tracked s1 h) ∧ (∀ h ∈ hs, tracked s1 h) ∧
-    (Clean s → s.cancelled.contains ctx = false → Clean s1 ∧ pot U s1 ≤ pot U s) ∧
+    (Clean s → s.cancelled.contains ctx = false → Clean s1 ∧ potB U s1 ≤ potB U s) ∧
     s1.workers.length ≤ s.workers.length + U.length := by
   obtain ⟨nw, hnd, hnew, hcov, heq⟩ := foldl_enqueue_spec ctx (s.failed ++ hs) { s with failed := [] }
   intro s1
@@ -182,7 +182,7 @@ theorem load_facts (hin : StIn U s) (ctx : Nat) {hs : List Nat} (hhs : ∀ h ∈
       · exact hcl w hw
       · obtain ⟨k, hk, rfl⟩ := mem_spawn.1 hw
         exact hctx
-    · unfold pot
+    · unfold potB
       rw [enqd_workers, enqd_cancelled, enqd_pending, wsum_append]
       have : wsum U.length s.cancelled (spawn ctx nw) = 3 * nw.length := wsum_spawn _ _ _ _ hctx
       show _ + (wsum U.length s.cancelled s.workers + wsum U.length s.cancelled (spawn ctx nw)) +
@@ -198,7 +198,7 @@ theorem load_facts (hin : StIn U s) (ctx : Nat) {hs : List Nat} (hhs : ∀ h ∈
 brings in everything reachable from its heads and from every hash tracked before.** -/
 theorem load_drain_clean (hc : 0 < c) (hU : Closed net U) (hi : Inv net c s) (hin : StIn U s)
     (hcl : Clean s) {ctx : Nat} (hctx : s.cancelled.contains ctx = false) {hs : List Nat}
-    (hhs : ∀ h ∈ hs, h ∈ U) {n : Nat} (hn : pot U s < n) :
+    (hhs : ∀ h ∈ hs, h ∈ U) {n : Nat} (hn : potB U s < n) :
     let s' := drain net n (step net s (.load ctx hs))
     Inv net c s' ∧ StIn U s' ∧ s'.workers = [] ∧ s'.pending = [] ∧ s'.failed = [] ∧
     s'.cancelled = s.cancelled ∧
@@ -208,7 +208,8 @@ theorem load_drain_clean (hc : 0 < c) (hU : Closed net U) (hi : Inv net c s) (hi
   obtain ⟨l1, l2, l3, _, l5, l6, l7, _⟩ := load_facts (net := net) hin ctx hhs
   obtain ⟨c1, c2⟩ := l7 hcl hctx
   obtain ⟨r1, r2, r3, r4, r5, r6, r7⟩ :=
-    drain_spec hc hU n (step net s (.load ctx hs)) (hi.load ctx hs) l1 (by omega)
+    drain_spec hc hU n (step net s (.load ctx hs)) (hi.load ctx hs) l1
+      (by unfold pot; have := busy_le (step net s (.load ctx hs)).workers; omega)
   have hf : s'.failed = [] := (r7 c1).trans l3
   refine ⟨r1, r2, r3, r4, hf, r5.trans l2, ?_⟩
   intro hs0 hh x hx
